@@ -5,13 +5,36 @@ source; Gen/EffectsAlias.lean holds one `decide` obligation per public function 
 reachable from a parameter; for the copy=False paths `safeExcept`: only the first parameter may be written);
 Props/C13.lean holds the soundness theorem of the analysis.  The dynamic part snapshots every argument before a real
 call and compares afterwards (also when the call raises); it is the failing-input search and validates the translator."""
-import sys, inspect
+import sys, inspect, re
 from common import *  # noqa
 import effects_common as ec
 import effects_inputs as ei
 
 PID = 'C13'
 T_CALL = 5.0
+
+# Public functions that cannot return normally in this environment, with the observed reason.  Their arguments are still
+# snapshotted and compared after the exception.  Any *other* public function that never returns normally on any task is a
+# break of the check (it would otherwise pass the dynamic part silently).
+CANNOT_RUN = {
+    'adjacency_plot_und': "ModuleNotFoundError: mayavi is not installed",
+    'agreement': 'D18: dummyvar calls np.sum(<generator>), a TypeError on the installed NumPy',
+    'agreement_weighted': 'D18: dummyvar calls np.sum(<generator>), a TypeError on the installed NumPy',
+    'dummyvar': 'D18: np.sum(<generator>) is a TypeError on the installed NumPy',
+    'find_motif34': 'FileNotFoundError: bct/algorithms/motif34lib.mat is not shipped at the path the code opens',
+    'motif3funct_bin': 'FileNotFoundError: motif34lib.mat', 'motif3funct_wei': 'FileNotFoundError: motif34lib.mat',
+    'motif3struct_bin': 'FileNotFoundError: motif34lib.mat', 'motif3struct_wei': 'FileNotFoundError: motif34lib.mat',
+    'motif4funct_bin': 'FileNotFoundError: motif34lib.mat', 'motif4funct_wei': 'FileNotFoundError: motif34lib.mat',
+    'motif4struct_bin': 'FileNotFoundError: motif34lib.mat', 'motif4struct_wei': 'FileNotFoundError: motif34lib.mat',
+    'make_motif34lib': 'not called: it writes motif34lib.mat into the package directory (/repo must not be touched)',
+    'findpaths': 'IndexError for qmax=1 (util[:, q]); TypeError in its progress print for qmax>=2',
+    'generate_fc': 'NotImplementedError: unimplemented stub',
+    'get_components_old': "TypeError: np.flatnonzero-based indexing with float64 ('expected a sequence of integers') on this NumPy",
+    'link_communities': 'TypeError: np.stack called with a generator on this NumPy',
+    'path_transitivity': "ValueError: 'setting an array element with a sequence' (retrieve_shortest_path returns a column vector)",
+    'search_information': "ValueError: 'setting an array element with a sequence' (same cause as path_transitivity)",
+    'reorder_mod': 'IndexError on every partition tried',
+}
 
 
 def diff_info(a, b):
@@ -64,8 +87,14 @@ def run_task(task):
             except Exception:
                 shares = False
             if task['copy'] is False:
-                # positive check of the exception: the utility operated on the caller's array
-                out['notes'].append('copy_false_in_place' if (shares or ei.same(r0, kw[first])) else 'copy_false_not_in_place')
+                # the exception clause: with copy=False the utility operates on the caller's array, i.e. afterwards the
+                # argument holds the result -- judged for every function whose docstring promises "in place"
+                inplace = shares or r0 is kw[first] or ei.same(r0, kw[first])
+                out['notes'].append('copy_false_in_place' if inplace else 'copy_false_not_in_place')
+                if not inplace and re.search(r'modif\w*\s+(W|the matrix)\s+in\s+place|in\s+place', f.__doc__ or ''):
+                    out['fails'].append(('copy-false-holds-result', first,
+                                         'copy=False returned %s but the argument does not hold the result (argument %s)' % (
+                                             'a different array', 'unchanged' if ei.same(before[first], kw[first]) else 'changed')))
             elif shares:
                 out['notes'].append('result_shares_memory_with_argument')
     return out
@@ -81,7 +110,8 @@ def main():
     ck.assumptions += ['parameters documented as int/float/bool/str/enum (numpydoc) are immutable scalars; `seed` is not an array',
                        'copy=False of the utilities that have a `copy` parameter (threshold_*, weight_conversion, binarize, normalize, invert, '
                        'logtransform, autofix, generative_model) is the explicit exception: there only the other arguments are compared, and it is '
-                       'checked that the utility then does operate on the caller\'s array',
+                       'judged (predicate copy-false-holds-result) that the argument then holds the result, for every function whose docstring '
+                       'promises "in place" (all but generative_model, whose docstring only says some algorithms add edges to the input)',
                        'functions that cannot run on this NumPy / without optional files (agreement: D18, motif*: motif34lib, adjacency_plot_und: '
                        'mayavi) are counted; their arguments are still compared after the exception',
                        'array flags (setflags) are outside the statement (values, dtype, shape)']
@@ -98,6 +128,8 @@ def main():
         ck.obl.append(('BctVerif.Gen.EffectsAlias (not regenerated: translator crashed)', False, []))
         ck.finish()
     tr, res, summ = tres
+    ec.selftest_breaks(ck, res)
+    ck.count('translator_selftests', summ['selftests'])
     ok = ck.lean_gate(['BctVerif.Props.C13'], extra_modules=['BctVerif.Model.AliasIR'], gen_modules=['BctVerif.Gen.EffectsAlias'])
     mirror = {n: d['fails'] for n, d in res['alias'].items() if d['fails'] and d['public'] and n not in res['not_covered_static']}
     ec.name_failed_obligations(ck, 'BctVerif.Gen.EffectsAlias', mirror)
@@ -156,7 +188,16 @@ def main():
                 ', copy=False' if t['copy'] is False else ''), 'parameter': p, 'info': info, 'status': r['status']},
                 {'kind': t['kind'], 'parameter': p})
     ck.dist['functions_exercised'] = len(ran)
-    ck.dist['functions_that_never_returned_normally (counted, not failed)'] = sorted(fn for fn, n in ran.items() if n == 0)
+    never = sorted(fn for fn, n in ran.items() if n == 0)
+    ck.dist['not_exercised (cannot return normally here; arguments still compared)'] = {fn: CANNOT_RUN[fn] for fn in never if fn in CANNOT_RUN}
+    if not ck.replay:
+        for fn in never:
+            if fn not in CANNOT_RUN:
+                ck.breaks.append({'kind': 'never-returns-normally', 'function': fn,
+                                  'note': 'every dynamic call raised or timed out and the function is not on the cannot-run list'})
+        for fn in CANNOT_RUN:
+            if ran.get(fn, 0) > 0:
+                ck.count('cannot_run_list_stale:' + fn)
     ck.cov['traces_validated_against_impl'] = sum(1 for r in results if r['status'] != 'nobuild')
     ck.finish()
 
